@@ -12,6 +12,7 @@ from ..grammar import load_dialect, DIALECTS
 from ..pymodel import model_for
 from ..codec import StringSyntax, chain_steps, apply_steps, function_steps
 from ..cfg import Flow
+from ..lexmodel import master_for
 from ..actions import ActionKinds
 from .. import peval
 
@@ -296,7 +297,7 @@ def check_variables(ctx):
                 run(fn.body)
                 return env[var]
             probes = []
-            for name in ['a', 'a.b', 'A_b$', 'x y', 'a-b', "it's", 'q"q', 'b`t', '@x', 'x@', "x'", 'a.b c']:
+            for name in ['a', 'a.b', 'A_b$', 'x y', 'a-b', "it's", 'q"q', 'b`t', '@x', 'x@', "x'", 'a.b c', 'v1x', 'a1', '_9', 'a$b', 'x.y2', 'A', '1a']:
                 for form in (name, f"'{name}'", f'"{name}"', f'`{name}`'):
                     text = sigil + form
                     if re.fullmatch(r.pattern, text, lex.reflags):
@@ -316,10 +317,11 @@ def check_variables(ctx):
             if d == 'mindsdb' and gs is not None:
                 enc = variable_encoder(ctx, gs)
                 badp = []
-                for name in ['a', 'a.b', 'x y', 'a-b', '1a', "it's"]:
+                for name in ['a', 'a.b', 'x y', 'a-b', '1a', "it's", 'v1x', 'a1', '_9', 'a$b', 'x.y2', 'A']:
+                    # only names some spelling of the token can express (a Variable the parser can produce)
                     if any(name == w for t, w in probes):
                         text = enc(name, tok == 'SYSTEM_VARIABLE')
-                        ok = re.fullmatch(r.pattern, text, lex.reflags) and decode(text) == name
+                        ok = re.fullmatch(r.pattern, text, lex.reflags) and decode(text) == name and master_for(lex).types(text) == [tok]
                         if not ok:
                             badp.append((name, text))
                 ctx.ob('C04.variable-encoder', f'{tok}', not badp,
@@ -335,6 +337,21 @@ class _Obj:
 
 def variable_encoder(ctx, gs):
     """Partial evaluation of Variable.get_string(name, is_system_var)."""
+    # module-level `NAME = re.compile(<literal>[, flags])` of the printer's module
+    compiled = {}
+    mod = gs
+    while getattr(mod, '_parent', None) is not None:
+        mod = mod._parent
+    for st in getattr(mod, 'body', []):
+        if isinstance(st, ast.Assign) and isinstance(st.targets[0], ast.Name) and isinstance(st.value, ast.Call) and dotted(st.value.func) == 're.compile' \
+                and st.value.args and const_str(st.value.args[0]) is not None:
+            fl = 0
+            for a in st.value.args[1:]:
+                for x in ast.walk(a):
+                    if isinstance(x, ast.Attribute) and hasattr(re, x.attr):
+                        fl |= int(getattr(re, x.attr))
+            compiled[st.targets[0].id] = (st.value.args[0].value, fl)
+
     def enc(name, is_sys):
         env = {'self.value': name, 'self.is_system_var': is_sys, 're.fullmatch': lambda p, s: re.fullmatch(p, s) is not None,
                're.match': lambda p, s: re.match(p, s) is not None, 'str': str}
@@ -349,6 +366,10 @@ def variable_encoder(ctx, gs):
                 return str(ev(e.args[0]))
             if isinstance(e, ast.Call) and dotted(e.func) in ('re.fullmatch', 're.match'):
                 return env[dotted(e.func)](ev(e.args[0]), ev(e.args[1]))
+            if isinstance(e, ast.Call) and isinstance(e.func, ast.Attribute) and isinstance(e.func.value, ast.Name) and e.func.value.id in compiled \
+                    and e.func.attr in ('fullmatch', 'match', 'search'):
+                pat, fl = compiled[e.func.value.id]
+                return getattr(re, e.func.attr)(pat, ev(e.args[0]), fl) is not None
             if isinstance(e, ast.UnaryOp) and isinstance(e.op, ast.Not):
                 return not ev(e.operand)
             return peval.ev(e, env)
@@ -494,7 +515,7 @@ def check_identifier_paths(ctx):
 def check_identifier_encoder(ctx):
     """Identifier.parts_to_str must quote every part the ID pattern cannot read back bare; evaluated on probe parts with the
     regex read from the source and the mindsdb lexer."""
-    from ..lexmodel import master_for
+    from ..lexmodel import master_for, master_for
     g = load_dialect(ctx.src, 'mindsdb')
     master = master_for(g.lexer)
     tree = ctx.src.tree(IDENT)
